@@ -113,6 +113,13 @@ def build_cases(ctx, histories, grid, d):
                           "depth": depth_of(dcls, kind, rnd) if kind == "hc" else 0,
                           "dstLen": rnd.choice([-1, -1, -1, inp["len"], inp["len"] // 2]), "spare": rnd.choice([0, 64])})
         add(calls)
+    # window-edge plants, systematically: distance x match length x background
+    for dist in (65534, 65535, 65536, 65537):
+        for m in (6, 20, 274):
+            for bg in (0, 1, 2):
+                inp = {"family": "plant", "len": dist + m + 200 + 37 * bg, "seed": 3 * rnd.randrange(1 << 20) + bg, "p1": dist, "p2": m}
+                add([{"obj": [kind, rnd.choice(["w1", "pool"])], "input": inp, "depth": depth_of(rnd.choice([0, 1, 2]), kind, rnd),
+                      "dstLen": -1, "spare": 0} for kind in ("fast", "hc")])
     # (5) pooled compressors used from four goroutines, keys repeated (C14)
     for _ in range(12 if q else 200):
         ins = [small_input(rnd) for _ in range(3)] + [small_input(rnd, rnd.randrange(100, 161))]
